@@ -1,5 +1,6 @@
 import Hertz.Proofs.Http1
 import Hertz.Spec.Http
+import Hertz.Proofs.SpecHex
 /-!
 Round trip of the request reader (C01): the wire encoding of a well-formed request, followed by
 arbitrary bytes, is read back by the model of `req.parse` / `ContinueReadBody` / `Server.Serve` as
@@ -1909,7 +1910,8 @@ theorem chunksAux_enc (last rest : Bytes) (hl0 : parseHex last = some 0) (hl15 :
     obtain ⟨f, rfl⟩ : ∃ f, fuel = f + 1 := ⟨fuel - 1, by omega⟩
     obtain ⟨hcl, htr⟩ := parseHex_clean last 0 hl0
     have hn : ¬ (last.length > 15) := by omega
-    simp [chunksAux, encChunks, chunkData, crlfLine_enc _ _ hcl, htr, hn, hl0]
+    have hhb := Spec.Http.head_not_blank_of_parseHex last 0 hl0
+    simp [chunksAux, encChunks, chunkData, crlfLine_enc _ _ hcl, hhb, htr, hn, hl0]
   | c :: cs, acc, fuel, hf, hw => by
     obtain ⟨f, rfl⟩ : ∃ f, fuel = f + 1 := ⟨fuel - 1, by omega⟩
     obtain ⟨hd0, h15, hsz⟩ := wfChunk_facts c (hw c (by simp))
@@ -1923,8 +1925,9 @@ theorem chunksAux_enc (last rest : Bytes) (hl0 : parseHex last = some 0) (hl15 :
       omega⟩
     have ih := chunksAux_enc last rest hl0 hl15 cs (acc ++ c.data) f (by simp at hf; omega)
       (fun x hx => hw x (by simp [hx]))
+    have hhb := Spec.Http.head_not_blank_of_parseHex c.size _ hsz
     rw [e1]
-    simp only [chunksAux, crlfLine_enc _ _ hcl, htr, hn, if_false, hsz, hm]
+    simp only [chunksAux, crlfLine_enc _ _ hcl, hhb, Bool.false_eq_true, htr, hn, if_false, hsz, hm]
     rw [← hm]
     have e2 : c.data ++ 13 :: 10 :: (encChunks cs ++ (last ++ 13 :: 10 :: rest)) =
         (c.data ++ [13, 10]) ++ (encChunks cs ++ (last ++ 13 :: 10 :: rest)) := by simp
